@@ -195,4 +195,3 @@ func indent(s, pre string) string {
 }
 
 func cmdReplay(args []string) int   { fmt.Println("replay: not built yet"); return 2 }
-func cmdSelftest(args []string) int { fmt.Println("selftest: not built yet"); return 2 }
